@@ -380,11 +380,11 @@ func (dq *Deque[T]) addAfter(value T, after *element[T]) error {
 	it.prev.next = it
 	it.next.prev = it
 
-	if after.isRoot() {
+	if it.prev.isRoot() {
 		dq.nfront.Signal()
 		verifSig("signal", dq.nfront, "nfront")
 	}
-	if after.prev.isRoot() {
+	if it.next.isRoot() {
 		dq.nback.Signal()
 		verifSig("signal", dq.nback, "nback")
 	}
